@@ -117,7 +117,7 @@ func TestC13(t *testing.T) {
 		case 0:
 			return ctxCase(gen.Mutate(rt, rapid.SampledFrom(vec).Draw(rt, "vec"), gen.FragHTML))
 		case 1:
-			return ctxCase(gen.Mutate(rt, rapid.SampledFrom(corpus.HTML).Draw(rt, "fix"), gen.FragHTML))
+			return ctxCase(gen.Mutate(rt, rapid.SampledFrom(corp().HTML).Draw(rt, "fix"), gen.FragHTML))
 		}
 		return ctxCase(g.Draw(rt, "s"))
 	})
